@@ -36,7 +36,7 @@ def gen_expr(rng, depth, nfresh, names, mixed_ok=True):
         return ["root", inner, n]
     if r < 0.80:
         pool = SI_PREFIXES + (IEC_PREFIXES if (mixed_ok and rng.random() < 0.15) else [])
-        return ["pre", rng.choice(pool), gen_expr(rng, depth - 1, nfresh, names)]
+        return ["pre", rng.choice(pool), gen_expr(rng, depth - 1, nfresh, names)] + (["r"] if rng.random() < 0.4 else [])
     if r < 0.87:
         return ["num", gen_expr(rng, depth - 1, nfresh, names)]
     if r < 0.94:
